@@ -292,6 +292,8 @@ class Twin:
             for a_, v_ in dmem_writes:
                 ctypes.memmove(dm + 2 * a_, int(v_).to_bytes(2, 'little'), 2)
             before = ctypes.string_at(dm, 0x20000)
+            pm = tw.fn('nm_pmem', ctypes.c_void_p, [])()
+            pbefore = ctypes.string_at(pm, 0x80000)
             rc = tw.fn('nm_try_row', ctypes.c_int, [ctypes.c_void_p, ctypes.c_uint, ctypes.c_uint16, ctypes.c_uint16])(m, row, o, e)
             out = {}
             for f, (off, sz, cnt, stride) in s.rl.items():
@@ -305,7 +307,13 @@ class Twin:
                 for a_ in range(0x10000):
                     if after[2 * a_:2 * a_ + 2] != before[2 * a_:2 * a_ + 2]:
                         ch[a_] = int.from_bytes(after[2 * a_:2 * a_ + 2], 'little')
-            return {'regs': out, 'dmem': ch, 'unimpl': rc == 1}
+            pafter = ctypes.string_at(pm, 0x80000)
+            pch = {}
+            if pafter != pbefore:
+                for a_ in range(0x40000):
+                    if pafter[2 * a_:2 * a_ + 2] != pbefore[2 * a_:2 * a_ + 2]:
+                        pch[a_] = int.from_bytes(pafter[2 * a_:2 * a_ + 2], 'little')
+            return {'regs': out, 'dmem': ch, 'pmem': pch, 'unimpl': rc == 1}
         return native.in_child(body)
 
 
